@@ -441,6 +441,35 @@ func Run(c *core.Ctx) int {
 					if verr != nil || kerr != nil {
 						c.Count("signed-and-stamped:not-valid-or-not-verified", 1)
 					}
+					// a signature handed over in another JWS serialization (flattened JSON with an
+					// unprotected header): either the text is refused, or what is written back is read
+					// again and written the same — an accepted text never turns into an unreadable one
+					if len(e3.Signatures) > 0 {
+						if parts := strings.Split(e3.Signatures[0].String(), "."); len(parts) == 3 {
+							alt, _ := json.Marshal(map[string]any{"protected": parts[0], "header": map[string]any{"x-note": "n"}, "payload": parts[1], "signature": parts[2]})
+							var m map[string]any
+							if json.Unmarshal(bs, &m) == nil {
+								m["sigs"] = []any{string(alt)}
+								ba, _ := json.Marshal(m)
+								e5 := new(gobl.Envelope)
+								if err := json.Unmarshal(ba, e5); err != nil {
+									c.Count("signature-in-json-serialization:refused", 1)
+								} else {
+									c.Count("signature-in-json-serialization:accepted", 1)
+									b5, _ := json.Marshal(e5)
+									e6 := new(gobl.Envelope)
+									if err := json.Unmarshal(b5, e6); err != nil {
+										c.Fail("", "an envelope whose signature is given in the JWS JSON serialization is read, but what is written back is not readable: "+err.Error(), cs)
+										continue
+									}
+									if b6, _ := json.Marshal(e6); !bytes.Equal(b6, b5) {
+										c.Fail("", "parse then serialise is not the identity for an envelope read with a JSON-serialized signature: "+firstDiff(b5, b6), cs)
+										continue
+									}
+								}
+							}
+						}
+					}
 				}
 			}
 		}
